@@ -64,7 +64,7 @@ META = {
     "private helpers _snap_edge_pos / _snap_edge, the design rows handed to LAPACK as multisets) are soft or skipped with "
     "a note when the interception point is gone; only observable behaviour decides.",
     "inventory_not_modelled": "odc/geo/math.py parts without a Lean mirror in Model/C20*: quasi_random_r2 beyond 2^24 indices "
-    "(float32 arange collapses; observation), norm_xy's sqrt values are witnesses and sums of 8 or more distances (numpy pairwise summation) are outside the executable model, "
+    "(float32 arange collapses; observation), norm_xy's sqrt values are witnesses; the mean distance follows numpy's summation scheme for up to 128 points (sequential below 8, one pairwise block of eight accumulators up to 128; beyond 128 points numpy recurses and the model's domain ends), "
     "Poly2d.fit end to end (dispatch, design rows, de-normalisation, cost and the fit theorems are modelled; LAPACK lstsq is a "
     "parameter), Poly2d.__call__ broadcasting of differently shaped N-d arrays (equal shapes, scalars and 1-d broadcasting are modelled), overflow of finite arithmetic to inf, signed zeros, "
     "non-finite inputs of decompose_rws / affine_from_axis / Bin1D / Poly2d, get_scale_at_point (oracle only).",
@@ -2038,6 +2038,12 @@ def sec_nonfinite(R: Run, M, Affine):
             R.oracle(o.startswith("ERR:"), "snap-grid-accepts-nonfinite-interval",
                      {"x0": xf_s(x0), "x1": xf_s(x1), "res": xf_s(res), "off": "N" if off is None else xf_s(off), "tol": xf_s(tol)},
                      f"snap_grid({x0!r},{x1!r},{res!r},{off!r},{tol!r}) returned {o}", sig="gridx-reject")
+    # signed zeros: -0.0 as anchor fraction / coordinate / tolerance behaves as 0 (the model does not distinguish them)
+    for (x0, x1, res, off, tol) in [(0.0, 5.25, 1.0, -0.0, 0.01), (-0.0, 5.25, -1.0, -0.0, 0.01), (-0.0, -0.0, 0.5, 0.5, -0.0), (-7.25, -0.0, -2.0, None, 0.01),
+                                    (-0.0, 2.5, 1.0, None, -0.0), (1.0, 2.5, -0.0, 0.0, 0.01), (1.0, 2.5, -0.0, None, 0.01)]:
+        z = lambda v: "N" if v is None else xf_s(0.0 if v == 0 else v)
+        R.corr(f"c20 gridx {z(x0)} {z(x1)} {z(res)} {z(off)} {z(tol)}",
+               lambda: "{} {}".format(*(lambda t: (xf_s(0.0 if t[0] == 0 else t[0]), t[1]))(M.snap_grid(x0, x1, res, off, tol))), sig="gridx|signed-zero")
     # is_affine_st / snap_affine with non-finite entries
     ents = [1.0, 0.5, 0.0, 2.5, -1.0] + NONFIN
     for _ in range(R.pick(1000, 15000)):
@@ -2218,6 +2224,23 @@ def sec_normxy(R: Run, M):
                       and float(np.abs(np.asarray([A * (float(x), float(y)) for x, y in pts]) - X).max()) < 1e-9 * sc)
             R.oracle(ok, "norm-xy-contract", {"pts": [list(q) for q in pts]},
                      f"norm_xy: X={X.tolist()} A={tuple(A)[:6]}", sig=f"normxy|{kind}")
+    # 8 .. 128 points: numpy sums the distances pairwise (eight accumulators, fixed tree, leftover one by one) -- `normXyP`
+    for _ in range(R.pick(60, 600)):
+        n = rng.choice([8, 9, 15, 16, 17, 24, 31, 40, 64, 100, 127, 128, rng.randint(8, 128)])
+        if rng.random() < 0.5:
+            pts = [(rng.uniform(-1e3, 1e3), rng.uniform(-1e3, 1e3)) for _ in range(n)]
+        else:
+            pts = [(float(rng.randint(-50, 50)), float(rng.randint(-50, 50))) for _ in range(n)]
+        arr = np.asarray(pts, dtype="float64")
+        XXn = arr - arr.mean(axis=0)
+        ds = [math.sqrt(float(v)) for v in (XXn ** 2).sum(axis=1)]
+        pts_s = list_s(pts, lambda q: frac_s(q[0]) + ";" + frac_s(q[1]))
+
+        def fnp():
+            X, A = M.norm_xy(arr.copy())
+            return (list_s(X.tolist(), lambda q: frac_s(q[0]) + ";" + frac_s(q[1])) + f" {frac_s(float(A.a))} {frac_s(float(A.c))} {frac_s(float(A.f))}")
+
+        soft.add(f"c20 normxyp {pts_s} {list_s(ds, frac_s)} {frac_s(r2)}", guarded(fnp), {"pts": [list(q) for q in pts]}, f"normxyp|n{8 * (n // 8)}")
     soft.flush()
     for bad in (np.zeros((3,)), np.zeros((3, 3)), np.zeros((2, 2, 2))):
         r = guarded(lambda: str(M.norm_xy(bad)))
